@@ -7,6 +7,7 @@ import (
 	"reflect"
 	"sort"
 	"strings"
+	"sync"
 	"testing"
 
 	"github.com/alecthomas/participle/v2"
@@ -668,8 +669,59 @@ func checkC13(c *gramCase, ps *c13Parsers, r *vstat.Run) outcome {
 	return outcome{}
 }
 
+// checkC13Long: one very long input in which every item starts a choice point whose first alternative is abandoned
+// after one token (more than 10^5 small backtracks in one parse); without the reference parser (the input is far
+// beyond its step budget): every lookahead from 1 up must accept it with the same AST.
+func checkC13Long(n int) outcome {
+	g := &gram.Grammar{Lookahead: 1, Elide: []string{"WS"}, Unions: []gram.Union{{Members: []int{0}, Ptr: []bool{false}}}}
+	assign := gram.Seq(gram.Cap(gram.Ref("Ident")), gram.Lit("+"), gram.Cap(gram.Ref("Int")))
+	g.Prods = []*gram.Prod{{PosStyle: 3, Expr: gram.Group("*", gram.Alt(assign, gram.Cap(gram.Ref("Ident")))),
+		Fields: []gram.Field{{Kind: gram.FStrs, Prod: -1, Uni: -1}, {Kind: gram.FStrs, Prod: -1, Uni: -1}, {Kind: gram.FStrs, Prod: -1, Uni: -1}}}}
+	fi := 0
+	g.Prods[0].Expr.Walk(func(e *gram.Expr) {
+		if e.Kind == gram.KCap {
+			e.Field = fi
+			fi++
+		}
+	})
+	ps, msg := buildLadder(g)
+	if msg != "" {
+		return violationf("harness", "long-input grammar does not build: %s", msg)
+	}
+	in := strings.Repeat("n ", n) + "a + 1"
+	var first string
+	firstK := 0
+	for i, b := range ps.bs {
+		if c13Ladder[i] == 0 {
+			continue // with lookahead 0 the first alternative commits after its first token: a different language
+		}
+		var ast *gram.Root
+		var err error
+		if pm := guardFor(func() { ast, err = b.P.ParseString("f", in) }, 6); pm != "" {
+			return violationf("long-input", "%d names followed by `a + 1`, lookahead %d: %s", n, c13Ladder[i], pm)
+		}
+		if err != nil {
+			return violationf("monotone", "%d names followed by `a + 1` parse with lookahead 1 but not with lookahead %d: %v", n, c13Ladder[i], err)
+		}
+		p := gram.Plain(reflect.ValueOf(ast.V))
+		if first == "" {
+			first, firstK = p, c13Ladder[i]
+		} else if p != first {
+			return violationf("ast", "%d names followed by `a + 1` parse to different ASTs with lookahead %d and %d", n, firstK, c13Ladder[i])
+		}
+	}
+	return outcome{}
+}
+
 func TestC13(t *testing.T) {
+	var longOnce sync.Once
 	runProp(t, "C13", c13Rule, func(t *rapid.T, r *vstat.Run) {
+		longOnce.Do(func() {
+			o := checkC13Long(100100)
+			r.Eval()
+			r.Count("long_input_cases")
+			report(t, r, o, &gramCase{Text: "long input: 100100 names followed by `a + 1` against ( @Ident \"+\" @Int | @Ident )*"})
+		})
 		o := gram.GenOpts{MaxProds: 4, MaxDepth: 4, TrapPercent: 30, NoLookNeg: true, PosStyles: true, Profiles: true, Parseables: true, Statics: true, NameElided: rapid.IntRange(0, 4).Draw(t, "named") == 0}
 		g := gram.GenGrammar(t, o)
 		ps, msg := buildLadder(g)
@@ -691,6 +743,9 @@ func TestC13Replay(t *testing.T) {
 		var c gramCase
 		if err := json.Unmarshal(raw, &c); err != nil {
 			return violationf("harness", "bad replay: %v", err)
+		}
+		if c.G == nil {
+			return checkC13Long(100100) // the long-input case carries no grammar of its own
 		}
 		ps, msg := buildLadder(c.G)
 		if msg != "" {
